@@ -48,7 +48,7 @@ Print Assumptions C10_dropped_is_unregistered.
 (* non-vacuity: the callback of handler 1 frees 2 and 3, which are later in
    the snapshot; the second dispatch reaches only the survivor *)
 Definition ex_ok : C10_case :=
-  {| c_classes := [({| cd_cls := 0; cd_base := None; cd_names := [0]; cd_maps := [] |}, [(0, [(0, 0)])])];
+  {| c_classes := [({| cd_cls := 0; cd_bases := []; cd_names := [0]; cd_maps := [] |}, {| co_mro := [0]; co_tab := [(0, Some [(0, 0)])] |})];
      c_hcls := [(1, 0); (2, 0); (3, 0)]; c_eqs := [];
      c_scripts := [(1, [(0, [(ADrop 2); (ADrop 3); (ADrop 1)])]); (2, [(0, [(ADrop 1); (ADrop 3)])]);
                    (3, [(0, [(ADrop 1); (ADrop 2)])])];
